@@ -230,3 +230,16 @@ def multinet_glue(ctx):
     ok = len(loops) == 1 and ast.unparse(loops[0].iter) == "multinet['nets'].keys()" and \
         any(isinstance(n, ast.Call) and ast.unparse(n.func) == "output_writer_routine" for n in ast.walk(loops[0]))
     ctx.decided("_call_output_writer/every-net", "ensures", ok, witness=ast.unparse(g.node)[-200:])
+
+
+# ---------------------------------------------------------------------------------------------
+# what the time-series loop relies on from pipeflow(): a failed step is signalled (PipeflowNotConverged, converged False)
+# before anything else happens -- shared with C05
+
+for _mode in ("hydraulics", "sequential"):
+    def _mk13(mode=_mode):
+        @unit("C13", "pipeflow_signals_failure/%s" % mode, functions=["pandapipes.pipeflow:pipeflow"], engine="E1")
+        def _u(ctx):
+            from contracts.C05 import _pipeflow_unit
+            _pipeflow_unit(ctx, mode)
+    _mk13()
